@@ -17,7 +17,7 @@
    repaired reduction step, [agg_upd_pinned] the one of the pinned commit. *)
 From Coq Require Import ZArith Bool List Reals.
 From Hy Require Import Base.Num Gen.ConstsC08 Model.Dutils
-     Proofs.DutilsProofs Proofs.DutilsCalProofs.
+     Proofs.DutilsProofs Proofs.DutilsCalProofs Proofs.DutilsGenProofs.
 Import ListNotations.
 
 (* ------------------------------------------------------------------ *)
@@ -326,3 +326,95 @@ Theorem C08_monthly2daily_rejects_unknown_interpolation :
   py_monthly2daily N interp minthr start vals = DErrArg.
 Proof. exact @m2d_rejects_unknown_interpolation. Qed.
 Print Assumptions C08_monthly2daily_rejects_unknown_interpolation.
+
+(* ------------------------------------------------------------------ *)
+(* facts that do not depend on rounding: they hold for EVERY arithmetic
+   instance, binary64 ([F64]) included.  [validN N g] / [nmissN N g]: the
+   non-missing inputs of a group / the number of missing ones, as decided by
+   the instance's own isnan *)
+
+(* the kernel works group by group: one output per group, each a fold over
+   its own group only *)
+Theorem C08_aggregate_groupwise_any_instance :
+  forall {T} (N : NumOps T) upd op maxnan idx (xs : list T),
+  length idx = length xs -> (1 <= length xs)%nat ->
+  Forall in_int32 idx -> nondecr idx ->
+  py_aggregate N upd op maxnan idx xs =
+  DOk (map (fun kg => group_value N upd op maxnan (snd kg)) (runs (combine idx xs))).
+Proof. exact @aggregate_groupwise. Qed.
+Print Assumptions C08_aggregate_groupwise_any_instance.
+
+Theorem C08_aggregate_one_output_per_group_any_instance :
+  forall {T} (N : NumOps T) upd op maxnan idx (xs : list T),
+  length idx = length xs -> (1 <= length xs)%nat ->
+  Forall in_int32 idx -> nondecr idx ->
+  exists out, py_aggregate N upd op maxnan idx xs = DOk out /\
+              length out = length (runs (combine idx xs)).
+Proof. exact @aggregate_output_count. Qed.
+Print Assumptions C08_aggregate_one_output_per_group_any_instance.
+
+Theorem C08_group_beyond_maxnan_is_nan_any_instance :
+  forall {T} (N : NumOps T) upd op maxnan (g : list T),
+  (maxnan < nmissN N g)%Z -> group_value N upd op maxnan g = nnan N.
+Proof. exact @group_value_beyond_maxnan. Qed.
+Print Assumptions C08_group_beyond_maxnan_is_nan_any_instance.
+
+Example C08_beyond_maxnan_nonvacuous : (0 < nmissN RN [Some 1%R; None])%Z.
+Proof. reflexivity. Qed.
+Print Assumptions C08_beyond_maxnan_nonvacuous.
+
+(* tail = the last non-missing input itself; max = one of the non-missing inputs *)
+Theorem C08_tail_is_last_valid_input_any_instance :
+  forall {T} (N : NumOps T) maxnan (g : list T),
+  (nmissN N g <= maxnan)%Z ->
+  group_value N (agg_upd N) 3 maxnan g = last (validN N g) (n0 N).
+Proof. exact @tail_value_any_instance. Qed.
+Print Assumptions C08_tail_is_last_valid_input_any_instance.
+
+Theorem C08_max_is_a_valid_input_any_instance :
+  forall {T} (N : NumOps T) maxnan (g : list T),
+  (nmissN N g <= maxnan)%Z -> validN N g <> [] ->
+  In (group_value N (agg_upd N) 2 maxnan g) (validN N g).
+Proof. exact @max_value_any_instance. Qed.
+Print Assumptions C08_max_is_a_valid_input_any_instance.
+
+Example C08_any_instance_nonvacuous :
+  (nmissN RN [Some 1%R; None] <= 1)%Z /\ validN RN [Some 1%R; None] <> [].
+Proof. split; [cbv; discriminate|discriminate]. Qed.
+Print Assumptions C08_any_instance_nonvacuous.
+
+Theorem C08_flathomogen_any_instance :
+  forall {T} (N : NumOps T) maxnan idx (xs : list T),
+  length idx = length xs -> (1 <= length xs)%nat ->
+  Forall in_int32 idx -> nondecr idx ->
+  exists out, py_flathomogen N maxnan idx xs = DOk out /\
+              length out = length xs /\
+              Forall2 (fun x o => nisnan N x = true -> o = nnan N) xs out.
+Proof. exact @flathomogen_any_instance. Qed.
+Print Assumptions C08_flathomogen_any_instance.
+
+(* ------------------------------------------------------------------ *)
+(* more about the cubic interpolation (beyond the property's statement) *)
+
+Theorem C08_polyval_is_horner : forall x c, polyval RR x c = horner c x.
+Proof. exact polyval_horner. Qed.
+Print Assumptions C08_polyval_is_horner.
+
+(* f(0) = 0, f(1) = y, f'(0) = d0*n, f'(1) = d1*n, on the coefficients *)
+Theorem C08_cubic_coefficients : forall r : mrec (T:=R),
+  exists c1 c2 c3, m2d_coefs RR r = [0; c1; c2; c3]%R /\
+    (c1 + c2 + c3 = m_y r /\ c1 = m_a r /\ c1 + 2 * c2 + 3 * c3 = m_b r)%R.
+Proof. exact cubic_coefs. Qed.
+Print Assumptions C08_cubic_coefficients.
+
+(* the adjustment loop makes the daily slope continuous across month ends *)
+Theorem C08_cubic_slopes_continuous : forall rest cur,
+  Forall (fun r : mrec (T:=R) => m_nd r <> 0%Z) (cur :: rest) ->
+  slopes_match (m2d_smooth RR cur rest).
+Proof. exact smooth_slopes_match. Qed.
+Print Assumptions C08_cubic_slopes_continuous.
+
+Example C08_cubic_slopes_nonvacuous :
+  Forall (fun r : mrec (T:=R) => m_nd r <> 0%Z) [mkM 31%Z 10 1 2; mkM 29%Z 5 3 4]%R.
+Proof. repeat constructor; discriminate. Qed.
+Print Assumptions C08_cubic_slopes_nonvacuous.
